@@ -84,6 +84,8 @@ package common
 //@   ensures [shape] err == nil ==> result0.Custodian != nil && result0.Signature != nil &&
 //@       (forall k int :: {result0.Nodes[k]} 0 <= k && k < len(result0.Nodes) ==> NodeShape(result0.Nodes[k]))
 //@   ensures [nodes] err == nil ==> (forall k int :: {result0.Nodes[k]} 0 <= k && k < len(result0.Nodes) ==> NodeKeysParsed(result0.Nodes[k]))
+//@   ensures [alloc] err == nil ==> (forall k int :: {result0.Nodes[k]} 0 <= k && k < len(result0.Nodes) ==> allocated(result0.Nodes[k]) && allocated(result0.Nodes[k].Extra))
+//@       -- the returned objects exist in the state returned to the caller (lets callers frame their own loops with loopentry)
 //@   ensures [unique] err == nil ==> (forall a, b int :: {result0.Nodes[a], result0.Nodes[b]} 0 <= a && a < len(result0.Nodes) && 0 <= b && b < len(result0.Nodes) && a != b ==>
 //@       SpendKeysDisjoint(result0.Nodes[a], result0.Nodes[b]))
 //@   ensures [signed] err == nil && !genesis ==> (forall k int :: {result0.Nodes[k]} 0 <= k && k < len(result0.Nodes) ==> NodeSigned(result0.Nodes[k]))
@@ -151,6 +153,13 @@ package common
 //@     (forall k int :: {curs.Nodes[k]} 0 <= k && k < len(curs.Nodes) ==> NodeShape(curs.Nodes[k]) && NodeKeysParsed(curs.Nodes[k])) &&
 //@     (forall k, j int :: {curs.Nodes[k].Extra[j]} 0 <= k && k < len(curs.Nodes) && 0 <= j && j < 353 ==> extra[64:len(extra)-64][353 * k + j] == curs.Nodes[k].Extra[j])
 
+// CanonicalNodes(curs): the parsed entries are signed (payee and custodian signatures over Blake3(entry[:161]), payee != custodian), sorted
+// by custodian spend key (bytes.Compare order) and use pairwise different spend keys.
+//@ spec CanonicalNodes(curs *CustodianUpdateRequest) bool =
+//@     (forall k int :: {curs.Nodes[k]} 0 <= k && k < len(curs.Nodes) ==> NodeSigned(curs.Nodes[k])) &&
+//@     (forall a, b int :: {curs.Nodes[a], curs.Nodes[b]} 0 <= a && a < b && b < len(curs.Nodes) ==> !lexlt(curs.Nodes[b].Custodian.PublicSpendKey, curs.Nodes[a].Custodian.PublicSpendKey)) &&
+//@     (forall a, b int :: {curs.Nodes[a], curs.Nodes[b]} 0 <= a && a < len(curs.Nodes) && 0 <= b && b < len(curs.Nodes) && a != b ==> SpendKeysDisjoint(curs.Nodes[a], curs.Nodes[b]))
+
 // FilterOK: every key of the filter map is the custodian address of a current node and maps to that node's payee address.
 //@ spec FilterOK(filter map[string]string, prev *CustodianUpdateRequest) bool = forall s string :: {has(filter, s)} has(filter, s) ==>
 //@     (exists m int :: {prev.Nodes[m]} 0 <= m && m < len(prev.Nodes) && prev.Nodes[m].Custodian.String() == s && filter[s] == prev.Nodes[m].Payee.String())
@@ -166,9 +175,10 @@ package common
 //@       tx.Outputs[0].Type == OutputTypeCustodianUpdateNodes && len(tx.Outputs[0].Keys) == 1
 //@   ensures [canonical] err == nil ==> len(tx.Extra) >= 64 + 353 * 7 + 64 && (len(tx.Extra) - 128) % 353 == 0
 //@   ensures [approval] err == nil ==> CurrentCustodian(store, now) != nil && ApprovalOK(CurrentCustodian(store, now).Custodian, tx.Extra)
-//@   ensures [price] err == nil ==> exists curs *CustodianUpdateRequest :: {curs.Nodes} Describes(curs, tx.Extra) &&
+//@   -- [entries]: the update IS a list of signed, sorted, unique entries (curs: the parse of tx.Extra), and the amount covers their price
+//@   ensures [entries] err == nil ==> exists curs *CustodianUpdateRequest :: {curs.Nodes} Describes(curs, tx.Extra) && CanonicalNodes(curs) &&
 //@       val(tx.Outputs[0].Amount) >= Price(CurrentCustodian(store, now), curs, len(curs.Nodes))
-//@   hint return [price-local] err == nil ==> Describes(curs, tx.Extra) && val(out.Amount) >= Price(prev, curs, len(curs.Nodes))
+//@   hint return [entries-local] err == nil ==> Describes(curs, tx.Extra) && CanonicalNodes(curs) && val(out.Amount) >= Price(prev, curs, len(curs.Nodes))
 //@   -- the final "custodian account and nodes mismatch" rejection happens only for a real mismatch: the node count differs, or a current
 //@   -- custodian node is missing from the update (needs: the second loop deletes what it has seen)
 //@   hint at "return fmt.Errorf("custodian account and nodes mismatch %x", tx.Extra)" [mismatch-reason] len(prev.Nodes) != len(curs.Nodes) ||
